@@ -25,7 +25,7 @@ inlining does not change what the rules see.
 import ast
 
 from . import terms as T
-from .index import AnalysisError, dotted
+from .index import AnalysisError, dotted, walk_local
 
 MAX_STATES = 6000
 
@@ -60,6 +60,9 @@ SCRAMBLERS = {'remove', 'discard', 'clear', 'pop', 'difference_update',
               'intersection_update', 'symmetric_difference_update', 'insert',
               'sort', 'reverse', 'popitem', 'setdefault'}
 EMPTY = T.mk(('union', frozenset()))
+
+
+HEAP = ('heap',)        # pseudo frame of the attributes of fresh objects: vars[(HEAP, (object term, attribute))]
 
 
 class St:
@@ -790,6 +793,14 @@ class Interp:
             for x, obj in self.eval(tgt.value, st, fr, o):
                 for y, v in self.eval(s.value, x, fr, o):
                     new = ('binop', opn, ('attr', obj, tgt.attr), v)
+                    cur = y.var(HEAP, (obj, tgt.attr)) if obj[0] == 'new' else None
+                    if cur is not None:
+                        # a counter (or collection) kept in a fresh helper object
+                        new = self.aug(opn, cur, v, tgt.attr)
+                        y = y.with_var(HEAP, (obj, tgt.attr), new)
+                        r0 = self.an.on_store_name(self, s, tgt.attr, new, y, fr)
+                        if r0 is not None and not isinstance(r0, list):
+                            y = r0.with_var(HEAP, (obj, tgt.attr), new)
                     r = self.an.on_store_attr(self, s, obj, tgt.attr, new, y, fr, aug=opn)
                     if r is None:
                         r = self.default_store_attr(obj, tgt.attr, y)
@@ -837,6 +848,9 @@ class Interp:
                 r = self.an.on_store_attr(self, stmt, obj, tgt.attr, t, x, fr)
                 if r is None:
                     r = self.default_store_attr(obj, tgt.attr, x)
+                if obj[0] == 'new':
+                    # remember what a fresh object holds
+                    r = [y.with_var(HEAP, (obj, tgt.attr), t) for y in (r if isinstance(r, list) else [r])]
                 res += r if isinstance(r, list) else [r]
             return res
         if isinstance(tgt, (ast.Tuple, ast.List)):
@@ -916,6 +930,17 @@ class Interp:
                 t, val = t[2], not val
             else:
                 t = t[2][0]
+        # a local that holds the tested value now holds a known boolean (`ok = len(p) == 0; if not ok: ...`):
+        # the fact itself may be dropped where the branches join, the variable keeps what was learnt
+        if isinstance(t, tuple) and (t[0] == 'cmp' or (t[0] == 'call' and t[1] in (
+                'all', 'any', 'bool', 'isinstance', 'issubclass', 'hasattr', 'callable'))):
+            for k, tv in list(y.vars.items()):
+                if k[0] == fr.fid and tv == t:
+                    y = y.with_var(fr.fid, k[1], ('const', bool(val)))
+        lt = _len_test(t) if isinstance(t, tuple) else None
+        if lt is not None:
+            # len(x) == 0, len(x) > 0 ...: a test of the emptiness of x
+            t, val = lt[0], (val if lt[1] else not val)
         y = self.an.on_branch(self, node, t, val, y, fr)
         if y is None:
             return None
@@ -1021,7 +1046,52 @@ class Interp:
             return back
         return back._new(vars=v)
 
+    def _comp_loop(self, s, fr):
+        """`edges = ((a, b) for x in X for a in f(x)); for a, b in edges: body` is the nest
+        `for x in X: for a in f(x): (a, b) = ...; body`: built once per loop, when the name has exactly one
+        definition in the function, a comprehension, and the body has no break / else"""
+        cache = self.__dict__.setdefault('_cl_cache', {})
+        if id(s) in cache:
+            return cache[id(s)]
+        synth = None
+        if isinstance(s.iter, ast.Name) and not s.orelse and isinstance(s, ast.For) \
+                and not any(isinstance(n, ast.Break) for b in s.body for n in ast.walk(b)):
+            defs = [n for n in walk_local(fr.func.node) if isinstance(n, (ast.Assign, ast.AugAssign, ast.For, ast.AnnAssign))
+                    and any(isinstance(t, ast.Name) and t.id == s.iter.id
+                            for t in (n.targets if isinstance(n, ast.Assign) else [n.target])
+                            for t in ast.walk(t))]
+            if len(defs) == 1 and isinstance(defs[0], ast.Assign) and len(defs[0].targets) == 1 \
+                    and isinstance(defs[0].value, (ast.GeneratorExp, ast.ListComp)) \
+                    and len(defs[0].value.generators) >= 2 and defs[0].lineno < s.lineno \
+                    and s.iter.id not in fr.func.params:
+                v = defs[0].value
+                body = [ast.Assign(targets=[s.target], value=v.elt)] + list(s.body)
+                for g in reversed(v.generators):
+                    if g.is_async:
+                        body = None
+                        break
+                    if g.ifs:
+                        test = g.ifs[0] if len(g.ifs) == 1 else ast.BoolOp(op=ast.And(), values=list(g.ifs))
+                        body = [ast.If(test=test, body=body, orelse=[])]
+                    body = [ast.For(target=g.target, iter=g.iter, body=body, orelse=[])]
+                if body:
+                    synth = body[0]
+                    for n in ast.walk(synth):
+                        if not hasattr(n, 'lineno'):
+                            ast.copy_location(n, s)
+                    for n in ast.walk(synth):
+                        for c in ast.iter_child_nodes(n):
+                            if isinstance(c, (ast.For, ast.If, ast.Assign)) and not (c in s.body):
+                                c._parent = n
+                    synth._parent = getattr(s, '_parent', None)
+                    ast.fix_missing_locations(synth)
+        cache[id(s)] = synth
+        return synth
+
     def x_For(self, s, st, fr):
+        synth = self._comp_loop(s, fr)
+        if synth is not None:
+            return self.x_For(synth, st, fr)
         o = Out()
         for x, it in self.eval(s.iter, st, fr, o):
             if _one_shot(it):
@@ -1660,6 +1730,8 @@ class Interp:
         res = []
         for x, b in self.eval(e.value, st, fr, o):
             r = self.an.on_attr(self, e, b, e.attr, x, fr)
+            if r is None and b[0] == 'new':
+                r = x.var(HEAP, (b, e.attr))      # what was stored in this fresh object
             if r is not None:
                 res.append((x, r))
             elif b[0] == 'mod':
@@ -1784,11 +1856,11 @@ class Interp:
                 if last or not rest_has_effects:
                     work.append((y, ts + [t], i + 1))
                 else:
-                    ya = y.assume(t, not is_and)
+                    # (through branch(): the analysis hooks see these decisions like those of an `if`)
+                    ya = self.branch(e.values[i], t, not is_and, y, fr)
                     if ya is not None:
-                        ya = ya.note(self.where(e, fr), "short-circuit: %s is %s" % (_short(e.values[i]), not is_and))
                         res.append((ya, t))
-                    yb = y.assume(t, is_and)
+                    yb = self.branch(e.values[i], t, is_and, y, fr)
                     if yb is not None:
                         work.append((yb, ts, i + 1))
         return res
@@ -1801,7 +1873,8 @@ class Interp:
                 res += self.eval(e.body, x, fr, o)
             elif v is False:
                 res += self.eval(e.orelse, x, fr, o)
-            elif _has_effects(e.body) or _has_effects(e.orelse):
+            elif _has_effects(e.body) or _has_effects(e.orelse) or _is_none_const(e.body) or _is_none_const(e.orelse):
+                # (`x if c else None`: which arm was taken is what the caller will test next)
                 for val, br in ((True, e.body), (False, e.orelse)):
                     y = self.branch(e.test, c, val, x, fr)
                     if y is not None:
@@ -1925,6 +1998,22 @@ class Interp:
                     body = [ast.If(test=test, body=body, orelse=[])]
                 body = [ast.For(target=g.target, iter=g.iter, body=body, orelse=[])]
             synth = body[0] if body else None
+        elif isinstance(v, ast.Call) and (dotted(v.func) or '').endswith('chain.from_iterable') and len(v.args) == 1 \
+                and not v.keywords:
+            # yield from chain.from_iterable(f(x) for x in X)  is  for x in X: yield from f(x)
+            a = v.args[0]
+            if isinstance(a, (ast.GeneratorExp, ast.ListComp)):
+                body = [ast.Expr(value=ast.YieldFrom(value=a.elt))]
+                for g in reversed(a.generators):
+                    if g.ifs:
+                        test = g.ifs[0] if len(g.ifs) == 1 else ast.BoolOp(op=ast.And(), values=list(g.ifs))
+                        body = [ast.If(test=test, body=body, orelse=[])]
+                    body = [ast.For(target=g.target, iter=g.iter, body=body, orelse=[])]
+                synth = body[0]
+            else:
+                var = '_chained_%d_%d' % (v.lineno, v.col_offset)
+                synth = ast.For(target=ast.Name(id=var, ctx=ast.Store()), iter=a, orelse=[],
+                                body=[ast.Expr(value=ast.YieldFrom(value=ast.Name(id=var, ctx=ast.Load())))])
         elif isinstance(v, ast.Call) and isinstance(v.func, ast.Name) and v.func.id == 'filter' \
                 and len(v.args) == 2 and not v.keywords and not isinstance(v.args[0], ast.Constant):
             var = '_filtered_%d_%d' % (v.lineno, v.col_offset)
@@ -1937,7 +2026,7 @@ class Interp:
                 if not hasattr(n, 'lineno'):
                     ast.copy_location(n, v)
                 for c in ast.iter_child_nodes(n):
-                    if not hasattr(c, '_parent') or isinstance(c, (ast.For, ast.If, ast.Expr, ast.Yield)):
+                    if not hasattr(c, '_parent') or isinstance(c, (ast.For, ast.If, ast.Expr, ast.Yield, ast.YieldFrom)):
                         try:
                             c._parent = n
                         except AttributeError:
@@ -1997,6 +2086,55 @@ class Interp:
                 if y is not None:
                     res += self.call(e, sub, args, kws, y, fr, o)
             return res
+        if fterm[0] == 'builtin' and fterm[1] == 'next' and len(args) == 2 and not kws \
+                and args[0][0] == 'comp' and len(args[0]) == 4 and len(args[0][3]) == 1:
+            # next((e(x) for x in S if c(x)), default): the first element that qualifies, or the default
+            c = T.flatten_comp(T.mk(args[0]))
+            key, it, conds = c[3][0]
+            if it[0] in ('tuple', 'list') and all(isinstance(x, tuple) for x in it[1]):
+                # a literal table: the elements are tried in order
+                elem = T.mk(('elem', it, key))
+                res = []
+                cur = st
+                for item in it[1]:
+                    if cur is None:
+                        break
+                    cj = [_simplify_items(T.replace(cd, elem, item)) for cd in conds]
+                    ej = _simplify_items(T.replace(c[2], elem, item))
+                    hit = cur
+                    for cd in cj:
+                        hit = self.branch(e, T.mk(cd), True, hit, fr) if hit is not None else None
+                    if hit is not None:
+                        res.append((hit, T.mk(ej)))
+                    if len(cj) == 1:
+                        cur = self.branch(e, T.mk(cj[0]), False, cur, fr)
+                    elif not cj:
+                        cur = None
+                if cur is not None:
+                    res.append((cur.note(self.where(e, fr), "next(): no entry of the table qualifies"), args[1]))
+                return res
+            lits = []
+            for cd in conds:
+                pol = True
+                while cd[0] == 'unop' and cd[1] == 'not':
+                    cd, pol = cd[2], not pol
+                lits.append((T.mk(cd), pol))
+            res = []
+            found = st
+            for cd, pol in lits:
+                found = found.assume(cd, pol) if found is not None else None
+            if found is not None:
+                found = found.assume(('exists', it, key, frozenset({frozenset(lits)})), True) if lits else found
+            if found is not None:
+                res.append((found.note(self.where(e, fr), "next(): an element qualifies"), c[2]))
+            none = st.assume(('forall', it, key, frozenset(frozenset({(cd, not pol)}) for cd, pol in lits)), True) \
+                if lits else st
+            if none is not None:
+                res.append((none.note(self.where(e, fr), "next(): no element qualifies"), args[1]))
+            return res
+        if fterm[0] == 'call' and fterm[1] in ('functools.partial', 'partial') and fterm[2] and not fterm[3]:
+            # functools.partial(f, a, b)(c)  is  f(a, b, c)
+            return self.call(e, fterm[2][0], tuple(fterm[2][1:]) + tuple(args), kws, st, fr, o)
         self.calls_seen += 1
         r = self.an.on_call(self, e, fterm, args, kws, st, fr)
         if r is not None:
@@ -2030,7 +2168,15 @@ class Interp:
                 return [(st, T.cap(('fmt', parts), 'fmt'))]
         callee, recv, kind = self.resolve(fterm, fr, e)
         if kind == 'new':
-            return [(st, ('new', callee, args, kws))]
+            obj = T.mk(('new', callee, args, kws))
+            cls = self.prog.classes.get(callee) if isinstance(callee, str) else None
+            init = self.prog.supplier(cls, '__init__') if cls is not None else None
+            if cls is not None and cls.name.startswith('_') and init is not None and fr.depth < self.an.max_inline \
+                    and init.qualname not in fr.stack:
+                # a small helper object local to the package: its constructor is walked, so that what it stores
+                # in the new object can be read back (the object is fresh: nothing else refers to it)
+                return [(y, obj) for y, _v in self.inline(init, obj, args, kws, fterm, st, fr, o, e)]
+            return [(st, obj)]
         if kind == 'ext':
             short = callee.split('.')[-1]
             if callee == 'getattr' and len(args) >= 2 and args[1][0] == 'const' and isinstance(args[1][1], str):
@@ -2221,7 +2367,7 @@ class Interp:
         call_args = node.args if isinstance(node, ast.Call) else None
         if isinstance(node, ast.Await) and isinstance(node.value, ast.Call):
             call_args = node.value.args
-        if call_args and bindings is None:
+        if call_args and (bindings is None or isinstance(node, ast.Await)):
             ps = list(f.params)
             if f.cls is not None and not f.is_static and recv != 'explicit':
                 ps = ps[1:]
@@ -2389,6 +2535,28 @@ def _may_stop_early(loop):
             continue
         stack.extend(ast.iter_child_nodes(n))
     return False
+
+
+def _is_none_const(e):
+    if isinstance(e, ast.Constant) and e.value is None:
+        return True
+    # an arm that takes the first / last element of something: legal only under the condition of the expression
+    for n in ast.walk(e):
+        if isinstance(n, ast.Subscript) and isinstance(n.slice, ast.Constant) and n.slice.value in (0, -1):
+            return True
+        if isinstance(n, ast.Subscript) and isinstance(n.slice, ast.UnaryOp) and isinstance(n.slice.operand, ast.Constant):
+            return True
+    return False
+
+
+def _simplify_items(t):
+    """('item', ('tuple', (a, b)), 0) -> a, recursively"""
+    if not isinstance(t, tuple):
+        return t
+    if len(t) == 3 and t[0] == 'item' and isinstance(t[1], tuple) and t[1] and t[1][0] in ('tuple', 'list') \
+            and isinstance(t[2], int) and t[2] < len(t[1][1]):
+        return _simplify_items(t[1][1][t[2]])
+    return tuple(_simplify_items(x) if isinstance(x, tuple) else x for x in t)
 
 
 def _one_shot(t):
